@@ -519,7 +519,7 @@ def rand_value(rng, t, size=3):
         if sc == 'timestamp':
             return ('I', rng.choice([0, -1, 1700000000, rng.randrange(2 * 10 ** 9)]))
         if sc == 'string':
-            return ('s', rng.choice(['', 'a', 'abc', 'Unit', 'None', '0', 'tz1', 'hello world', 'a_1']))
+            return ('s', rng.choice(['', 'a', 'abc', 'Unit', 'None', '0', 'tz1', 'hello world', 'a_1', 'a\nb', ' ~']))
         return ('x', rng.choice([b'', b'\x00', b'\x01\x02', b'\xff' * 3, b'ab']))
     if k == 'p':
         return ('P', rand_value(rng, t[2], size), rand_value(rng, t[3], size))
